@@ -71,6 +71,7 @@ class Impl:
         self.work = work
         self.problems = []            # direct violations of the property (oracle)
         self.known_area = False
+        self.operands = []            # (operand Region object, its own truth): an operation must not change its operand later
 
     def levels(self):
         out = []
@@ -123,12 +124,14 @@ class Impl:
             return [0]
         if k == 'Union':
             o = py_region(op['o'])
+            self.operands.append((o, deepest(op['o']['depth'], op['o']['cells']), g_op(op)[:80]))
             r.union(o, renorm=op['renorm'])
             self.truth |= deepest(D, op['o']['cells'])
             self.raw_since_norm = not op['renorm']
             return [0]
         if k in ('Without', 'Intersect', 'SymDiff'):
             o = py_region(op['o'])
+            self.operands.append((o, deepest(op['o']['depth'], op['o']['cells']), g_op(op)[:80]))
             try:
                 getattr(r, {'Without': 'without', 'Intersect': 'intersect', 'SymDiff': 'symmetric_difference'}[k])(o)
             except AssertionError:
@@ -204,6 +207,16 @@ class Impl:
         if got != self.truth:
             self.problems.append(f'region content differs from set algebra: extra {sorted(got - self.truth)[:5]} '
                                  f'missing {sorted(self.truth - got)[:5]}')
+        # operands of earlier operations are regions too: nothing done to self afterwards may change them (shared set objects)
+        for o, t, what in self.operands:
+            try:
+                og = set(int(p) for p in copy.deepcopy(o).get_demoted())
+            except Exception as e:  # noqa
+                og = {f'raised {type(e).__name__}'}
+            if og != t:
+                self.problems.append(f'the operand of an earlier operation ({what}) no longer holds its own pixel set: extra '
+                                     f'{sorted(map(str, og - t))[:5]} missing {sorted(map(str, t - og))[:5]}')
+                break
 
 
 def run_impl(D, ops, work):
